@@ -247,6 +247,24 @@ PROPS = {
                 "recorded trace must have the shape PublishIO.lean assumes (reads only before the commit write, nothing after it)",
         "assumptions": ["the insertion is abstracted in the theorem to an arbitrary program of reads and transaction-log writes"],
     },
+    "C18": {
+        "thm_module": ["AkdModel.Thm.C18"],
+        "theorems": ["Akd.C18." + t for t in ["labelInput_injective", "proof_bytes_roundtrip", "proof_wrong_length_rejected",
+                                              "proof_s_plus_ell", "vrf_complete", "vrf_deterministic", "verifyLabel_spec",
+                                              "verifyLabel_single_field", "verifyLabel_label_binds"]],
+        "streams": ["l1.vrf"],
+        "rule": "(a) VRF input bytes: the model's i2osp(label) || freshness || version_be, hashed by the real TC::hash, vs "
+                "get_hash_from_label_input, for structured labels (empty, long, prefix-related, imitating the suffix of another "
+                "input) x versions across the u64 range x both freshness values x both configurations, plus random ones; (b) the "
+                "oracle over the public VRF API: determinism, get_node_label = label from the proof = get_node_labels, honest proof "
+                "verifies, every single-field alteration (label, freshness, version +-1, node label bit 0 / 255, public key) is "
+                "rejected, every byte of the 80-byte proof flipped / zeroed / incremented and wrong lengths never make a DIFFERENT "
+                "node label verify, node label / nonce / commitment differ under a second key; (c) altered VRF proof bytes (flip, "
+                "zero, increment, truncation, s + group order, honest proofs for other inputs) through the REAL lookup_verify, "
+                "compared with the model of verify_label",
+        "assumptions": ["uniqueness / non-malleability of ECVRF outputs, key separation, SHA-512 and Edwards arithmetic are assumed "
+                        "(explored by the oracle, not proved)"],
+    },
     "C20": {
         "thm_module": ["AkdModel.Thm.C05"],
         "theorems": ["Akd.C05.membership_sound_leaf"],
